@@ -279,8 +279,13 @@ def rule_fields(ctx: Ctx) -> None:
                 ctx.check(g is not None and e is None, "C19-fields", "PerceptionAnalyzer3D.format2dict", f"object:{'TN' if fact_where(p, lambda k: S(k) == 'eq:status==MatchingStatus.TN') else 'FN'}",
                           "a bare TN/FN object must fill the ground-truth row only", fi=fi)
         rv = p.retval
-        ctx.check(isinstance(rv, ast.Dict) and [S(k) for k in rv.keys] == ["'ground_truth'", "'estimation'"] and [strip_v(S(v)) for v in rv.values] == ["gt_ret", "est_ret"], "C19-fields",
+        vals_named = isinstance(rv, ast.Dict) and all(isinstance(v, ast.Name) for v in rv.values)
+        ctx.check(isinstance(rv, ast.Dict) and [S(k) for k in rv.keys] == ["'ground_truth'", "'estimation'"] and (not vals_named or [strip_v(S(v)) for v in rv.values] == ["gt_ret", "est_ret"]), "C19-fields",
                   "PerceptionAnalyzer3D.format2dict", "returns", f"returns `{S(rv)[:80]}`", fi=fi)
+        if isinstance(rv, ast.Dict) and not vals_named:
+            # the two rows returned as expressions: they must be the rows analysed above
+            g0, e0 = _dict_call(p, "gt_ret"), _dict_call(p, "est_ret")
+            ctx.require(all(isinstance(v, ast.Name) or (isinstance(v, ast.Call) and S(v.func) == "dict") or S(v).startswith("self._") for v in rv.values), f"format2dict: returns `{S(rv)[:80]}` - row expressions not recognised")
     ctx.require(len(checked) >= 3, f"format2dict: only {len(checked)} row blocks analysed")
     rows = set()
     for p in paths:
@@ -387,10 +392,13 @@ def rule_errors(ctx: Ctx) -> None:
         if kind == "yaw":
             chain = [c for c in chain if "np.pi" not in c]  # the wrap written as a re-assignment is judged by R-ANGLEWRAP above
         want = (["err[~np.isnan(err)]"] if rn else []) + POST[kind]
+        kept = [(S(a.recv), strip_v(S(a.args[0]))) for a in appends(bp)]
+        if len(kept) == 1 and kept[0][0] == "errors" and kept[0][1] != "err" and "err" in kept[0][1]:
+            # the last step handed straight to append (e.g. returned by a helper the post-processing was moved into) instead of being bound to err first
+            chain, kept = chain + [kept[0][1]], [("errors", "err")]
         ctx.check(rn is not None and chain == want, "C19-errors", "calculate_error", f"post:{kind}:remove_nan={rn}",
                   f"after the difference the {kind} error goes through {chain}; expected {want} (NaN rows removed iff asked; distance = norm of the (x, y) difference, nn_plane = mean of the two corner distances)",
                   fi=fi, expected=str(want), found=str(chain))
-        kept = [(S(a.recv), strip_v(S(a.args[0]))) for a in appends(bp)]
         ctx.check(kept == [("errors", "err")], "C19-errors", "calculate_error", f"kept:{kind}:{rn}", f"the column's errors are kept as {kept}; expected errors.append(err)", fi=fi)
     # no paired rows -> empty result, nothing else returns early
     for p in paths:
@@ -679,6 +687,13 @@ def rule_summaries(ctx: Ctx) -> None:
                 st = [(S(strip_v(e.recv)), S(e.value)) for e in bp.effects if e.kind == "store"]
                 want = [(f"data['{c}']", f"_summarize('{c}',{rows})") for c in cols] + [(f"all_data[str({lv})]", "data")]
                 tag = "ALL" if is_all else f"label:{'rows' if has else 'empty'}"
+                mcomp = re.match(r"^\{(\w+):_summarize\(\1,(.*)\)for\1in[\(\[](.*?),?[\)\]]\}$", st[0][1]) if len(st) == 1 and st[0][0] == f"all_data[str({lv})]" else None
+                if mcomp:
+                    # the same table written as a dict comprehension over the literal column names
+                    ccols = [c.strip("'\"") for c in mcomp.group(3).split(",")]
+                    st = [(f"data['{c}']", f"_summarize('{c}',{mcomp.group(2)})") for c in ccols] + [(f"all_data[str({lv})]", "data")]
+                elif any(v.startswith("{") and "for" in v for _, v in st):
+                    ctx.require(False, f"{short}: the per-label summaries are built by a comprehension that is not recognised ({st[0][1][:80]})")
                 ctx.check(rows is not None and st == want, "C19-errors", short, f"columns:{tag}:{int(bool(dfn))}",
                           f"for {tag} the summaries are {[x for x in st if x not in want][:2] or 'missing ' + str([x for x in want if x not in st][:2])}; expected every state column summarised over "
                           f"{'the selected rows' if is_all else 'the pairs whose ground truth has this label'} and stored under the label", fi=fi, expected=str(want[:2]), found=str(st[:2]))
